@@ -246,7 +246,9 @@ def main(tier, replay=None):
         "generator": stats,
         "reader_accessor_outcomes_impl": outcome,
         "exhaustive": False,
-        "exhaustive_parts": "all %d byte strings of length 0..%d through every accessor" % (swept, 3 if c.tier == "thorough" else 2),
+        "exhaustive_parts": ("%d byte strings swept through every accessor: all of length 0..3" % swept) if c.tier == "thorough"
+                            else ("%d byte strings swept through every accessor: all of length 0..2, and all of length 3 "
+                                  "behind 16 chosen control bytes" % swept),
         "monitor_cases": n_mon,
         "monitor_violations": mon_viol,
         "derived_cases": kinds.get("D", 0),
